@@ -315,6 +315,36 @@ def check(F, run, tier):
     nat += 1
     run.floor("R-ATOMIC", nat, 13)
 
+    # ---- R-NARROW: no bounds decision is taken on a reinterpreted (sign-changed or narrowed) copy of an argument
+    from ..rules_narrow import r_narrow
+    nn = 0
+    sweep = [F.fn(MR + "::" + nm, nparams=k) for nm, k in mem_fns + [("Slice", 1), ("ReadPartial", 2)]]
+    sweep += [F.fn(SR + "::" + nm, nparams=k) for nm, k in [("ReadImplementation", 2), ("ReadPartial", 2), ("Seek", 1), ("SeekForward", 1),
+                                                            ("SeekBackward", 1), ("Slice", 2), ("Slice", 1), ("Initialize", 0)]]
+    sweep += [F.fn(NS + "FileReader::" + nm, nparams=k) for nm, k in [("ReadImplementation", 2), ("ReadPartial", 2), ("Seek", 1),
+                                                                     ("SeekForward", 1), ("SeekBackward", 1)]]
+    sweep.append(F.fn(NS + "BidirectionalReader::Peek", nparams=2))
+    for fn in sweep:
+        inv = inv_slice if fn.cls == SR else inv_mem if fn.cls == MR else frozenset()
+        if fn.cls == MR:
+            # language rule: no object (hence no buffer a MemoryReader spans) is larger than PTRDIFF_MAX bytes
+            inv = set(inv) | {norm_cmp("<=", M("streamSize"), ("const", (1 << 63) - 1))}
+        obs, _ = r_narrow(F, S, fn, entry=frozenset(inv), explicit_only=True)
+        for o in obs:
+            if "accumulation in" in o.required:
+                continue        # cursor advances: decided by R-CURSOR above
+            if o.instance.endswith("file.gcount()"):
+                continue        # std::streamsize gcount() is the non-negative count of the last read (standard-library contract)
+            run.add(o)
+        nn += 1
+    run.floor("R-NARROW(functions)", nn, 20)
+    fx = [f for f in F.fixture_functions.values() if f.qn == "fixture::Cursor::Back"]
+    hit = False
+    if fx:
+        o, _ = r_narrow(F, S, fx[0], explicit_only=True)
+        hit = sum(1 for x in o if x.status == "violated") >= 2
+    run.fixture("fixtures/raw_read.cpp: static_cast<int64_t>(offset) before a bounds test is reported by R-NARROW", hit)
+
     # ---- R-COUNT
     nc = 0
     for q in (MR, SR, NS + "FileReader"):
